@@ -299,7 +299,7 @@ func genNastyWord(r *rng) string {
 	case 2:
 		return "--"
 	case 3:
-		return pick(r, []string{`"open`, `'open`, `"a b`, `'`, `"`, "`tick", `a\`, `\`, `$(`, "${x", `"\`})
+		return pick(r, []string{`"open`, `'open`, `"a b`, `'`, `"`, "`tick", `a\`, `\`, `$(`, "${x", `"\`, "`", "``", "`a b`", "`a`b`", "'a", "\"\"", "''"})
 	case 4:
 		return pick(r, []string{`\xff`, `\xc3`, `a\xffb`, `\xe6\x97`, `--\xff`, `-\xfe`, `\xf0\x9f`, `\xed\xa0\x80`, `\xc0\xaf`})
 	case 5:
@@ -412,6 +412,15 @@ func genEntry(r *rng, tier string) interface{} {
 		words = append(words, pick(r, []string{"--" + f.Name + "=", "--" + f.Name, "-" + f.Short, "-" + f.Short + "=", "--" + f.Name + "=" + genNastyWord(r)}))
 	default:
 		words = append(words, genNastyWord(r))
+	}
+	if in.Ancestor == "nu" && r.chance(40) {
+		// what nushell hands over for words that open (or are nothing but) a quote: its patch strips quotes and backticks
+		q := pick(r, []string{"`", "``", "`a b", "`a b`", "`a`b`", "\"", "\"\"", "\"open", "'", "''", "'open"})
+		if r.chance(50) && len(words) > 1 {
+			words[r.intn(len(words))] = q
+		} else {
+			words[len(words)-1] = q
+		}
 	}
 	shell := pick(r, entryShells)
 	switch c := r.intn(40); {
